@@ -41,6 +41,9 @@ def build(shape, entries, n, rot, holder):
         return ttb.tensor(np.round(Xr * 100).astype(np.int16))
     if holder == "sparse":
         return ttb.tensor(np.where(np.abs(Xr) < 1e-14, 0.0, Xr)).to_sptensor()
+    if holder == "sparse_int16":
+        # counts are naturally stored as integers: the same scaled tensor as dense_int16, held sparse
+        return ttb.tensor(np.round(Xr * 100).astype(np.int16)).to_sptensor()
     if holder == "ktensor":
         R = len(entries)
         U = [np.zeros((s, R)) for s in shape]
@@ -188,7 +191,7 @@ def main(tier: str) -> int:
     step = 40 if tier == "quick" else 6
     cases = []
     for i, s in enumerate(stimuli[::step]):
-        for h in HOLDERS + (["dense_int16"] if s["rot"] != "r345" else []):
+        for h in HOLDERS + (["dense_int16", "sparse_int16"] if s["rot"] != "r345" else []):
             cases.append(dict(s, cls="exact", holder=h))
     sd = core.seed()
     for shape in ([4, 3, 5], [5, 4], [3, 4, 3, 2]):
@@ -206,7 +209,7 @@ def main(tier: str) -> int:
     from collections import Counter
     out.notes["cases_per_class_holder"] = {f"{k[0]}/{k[1]}": v for k, v in Counter((c["cls"], c["holder"]) for c in cases).items()}
     core.pipeline(out, "c14", behaviours, "Nvecs_Trace", lock_mode="superset", chunk=100,
-                  site_of=lambda tr, k: {"dense": "tensor", "dense_int16": "tensor", "sparse": "sptensor", "ktensor": "ktensor"}.get(
+                  site_of=lambda tr, k: {"dense": "tensor", "dense_int16": "tensor", "sparse": "sptensor", "sparse_int16": "sptensor", "ktensor": "ktensor"}.get(
                       tr["ev"][k - 1]["args"]["holder"], "ttensor") + ".nvecs", tags_of=tags_of)
     out.rule = ("exact class (diagonal Gram, distinct integer eigenvalues) rotated in mode n by the identity, a signed "
                 "permutation or the 3-4-5 rotation: every mode, r = 1..3 (iterative and dense branch), flipsign on/off, "
